@@ -2,6 +2,8 @@
 (* C09 as operators over an observable record r = [scn |-> ..., obs |-> ...].            *)
 (*   scn.force   "none" (pool default) | "false" (user disabled forced termination)       *)
 (*   scn.ops     the history (add:<kind> addfail dup:<wid> attach:<kind> run runp         *)
+(*               runl (poison that leaves the worker's process lingering) runabort (run     *)
+(*               abandoned by the worker_callback at the first 'enqueued')                 *)
 (*               runint (run left through a BaseException) restart restartg (force=False)  *)
 (*               kill:<wid> stick:<wid> close terminate exc; closeint / termint =          *)
 (*               close / terminate cut short by an exception in the closing thread)       *)
@@ -26,7 +28,7 @@ EXTENDS Naturals, Sequences
 Steps(r) == {r.obs.steps[k] : k \in 1..Len(r.obs.steps)}
 IsAdd(op) == op \in {"add", "addfail", "dup", "attach"}
 IsReg(op) == IsAdd(op) \/ op \in {"restart", "restartg"}       \* calls that (re-)register workers
-IsRun(op) == op \in {"run", "runp"}
+IsRun(op) == op \in {"run", "runp", "runl"}
 \* the closing call is over: it returned, or raised by itself (closeint / termint are cut short from outside)
 ClosingOver(s) == s.closing = "T" /\ (s.outcome = "ok" \/ (s.outcome = "raised" /\ s.op \notin {"closeint", "termint"}))
 
